@@ -4,7 +4,7 @@
    real-number library; everything about the executable model (Q, Z, lists) is axiom-free. *)
 From Coq Require Import ZArith QArith Qabs Qreals Reals List Bool.
 Import ListNotations.
-From PV Require Import C12.Model C12.Arccos C12.Proofs C12.SetUse C12.Storage C12.Bridge.
+From PV Require Import C12.Model C12.Arccos C12.Proofs C12.SetUse C12.Storage C12.Bridge C12.Region.
 Open Scope Z_scope.
 
 (* ---- the code's formula is the property's algebraic test (over the reals) ---- *)
@@ -156,6 +156,16 @@ Theorem C12_in_window_storage_independent : forall Ps Ps' ncaps pts, Forall2 sam
 Proof. exact in_window_storage_independent. Qed.
 Print Assumptions C12_in_window_storage_independent.
 
+Theorem C12_in_window_nil : forall ncaps pts, in_window [] ncaps pts = map (fun _ => (false, -1)) pts.
+Proof. exact in_window_nil. Qed.
+Print Assumptions C12_in_window_nil.
+
+(* a polygon without caps (whole sky) takes every point no earlier polygon contains *)
+Theorem C12_whole_sky_takes_rest : forall Ps P Qs ncaps p, Forall wf_poly Ps -> pn P = 0%nat ->
+  first_match Ps ncaps p = None -> first_match (Ps ++ P :: Qs) ncaps p = Some (length Ps).
+Proof. exact whole_sky_takes_rest. Qed.
+Print Assumptions C12_whole_sky_takes_rest.
+
 (* ---- set_use_caps ---- *)
 
 Theorem C12_set_bits_testbit : forall idx u b,
@@ -203,6 +213,24 @@ Theorem C12_checker_accepts_only_model : forall P idx o width r,
 Proof. exact checker_accepts_only_model. Qed.
 Print Assumptions C12_checker_accepts_only_model.
 
+(* removing doubles keeps the region when doubles have identical membership (exact same-sign duplicates) *)
+Theorem C12_dedup_preserves_region : forall P dup u1 ncaps p,
+  (pn P <= length (pcaps P))%nat ->
+  (forall i j a b, dup i j = true -> nth_error (pcaps P) i = Some a -> nth_error (pcaps P) j = Some b ->
+                   in_cap a p = in_cap b p) ->
+  in_polygon (with_use P (dedup dup (pn P) u1)) ncaps p = in_polygon (with_use P u1) ncaps p.
+Proof. exact dedup_preserves_region. Qed.
+Print Assumptions C12_dedup_preserves_region.
+
+Theorem C12_set_use_caps_preserves_region : forall P idx o ncaps p,
+  (pn P <= length (pcaps P))%nat -> o_allow_doubles o = false ->
+  (forall i j a b, dup_at (o_tol o) (o_allow_neg_doubles o) (pcaps P) i j = true ->
+                   nth_error (pcaps P) i = Some a -> nth_error (pcaps P) j = Some b -> in_cap a p = in_cap b p) ->
+  in_polygon (with_use P (set_use_caps P idx o)) ncaps p
+  = in_polygon (with_use P (set_bits (if o_add o then puse P else 0) idx)) ncaps p.
+Proof. exact set_use_caps_preserves_region. Qed.
+Print Assumptions C12_set_use_caps_preserves_region.
+
 (* ---- window_read(balkans=True) ---- *)
 
 Theorem C12_balkans_slice_spec : forall bcaps blist k icap n,
@@ -222,6 +250,12 @@ Theorem C12_balkans_membership : forall bcaps blist k icap n P p,
    forall i c, (i < n)%nat -> nth_error bcaps (icap + i) = Some c -> in_cap c p = true).
 Proof. exact balkans_membership. Qed.
 Print Assumptions C12_balkans_membership.
+
+Theorem C12_balkans_slice_wf : forall bcaps blist,
+  Forall (fun r : nat * nat => (fst r + snd r <= length bcaps)%nat) blist ->
+  Forall wf_poly (balkans_slice bcaps blist).
+Proof. exact balkans_slice_wf. Qed.
+Print Assumptions C12_balkans_slice_wf.
 
 (* ---- non-vacuity witnesses ---- *)
 
